@@ -1,12 +1,12 @@
 // Reproducer: RefineToTolerance / RefineToLength of a tangent-bearing mesh
 // deletes ORIGINAL vertices. A tetrahedron smoothed with two slightly
-// sharpened edges gets one quad marked (MarkQuads, src/smoothing.cpp:309-367:
+// sharpened edges gets one quad marked (MarkQuads, src/smoothing.cpp:309-363:
 // the edge between input vertices 1 and 3 gets tangent w = -1). Both ends of
 // that diagonal have valence 3, so the quad shares TWO edges with the third
 // triangle at that vertex; non-uniform subdivision then produces the corner
 // triangle (v, a, b) from the quad pattern and (v, b, a) from the triangle
 // pattern, CreateHalfedges drops the opposed pair, the vertex is stranded and
-// Impl::Refine (src/smoothing.cpp:1139-1141) removes it. Public API only.
+// Impl::Refine (src/smoothing.cpp:1149-1151) removes it. Public API only.
 #include <cmath>
 #include <cstdio>
 #include "manifold/manifold.h"
